@@ -13,6 +13,9 @@ import (
 // dbmate:      -- migrate:down
 func RemoveRollbackStatements(contents string) string {
 	s := bufio.NewScanner(strings.NewReader(contents))
+	// A line may be longer than bufio.MaxScanTokenSize; without a large enough
+	// buffer Scan stops there and the rest of the file is silently dropped.
+	s.Buffer(make([]byte, 0, bufio.MaxScanTokenSize), len(contents)+1)
 	var lines []string
 	for s.Scan() {
 		if strings.HasPrefix(s.Text(), "-- +goose Down") {
